@@ -117,9 +117,12 @@ def run(ctx, crate):
             if lp.order == "ordered":
                 obs.append(Ob("R15.order", b.path, "ordered loop over %s" % show(lp.iterable)[:70], True, site=lp.site.where, nontrivial=False))
                 continue
-            if lp.order == "unknown":
+            import re as _re
+            param_iter = _re.match(r"^<[A-Z]\w* as std::iter::IntoIterator>::IntoIter$", lp.self_ty or "") or _re.match(r"^[A-Z]\w*$", lp.self_ty or "")
+            if lp.order == "unknown" and not param_iter:
                 obs.append(Ob("R15.order", b.path, "iterator of unknown order class %s" % lp.self_ty.split("<")[0], False, site=lp.site.where))
                 continue
+            # (the iterator of a type parameter is judged like an unordered one: whatever the caller hands in, the loop must not depend on its order)
             normal, extra = lp.exits()
             bad = []
             for (x, t) in extra:
